@@ -430,6 +430,9 @@ def _run_csr(spec, tier, res):
         _judge_invalid(w, rule, outcome, res)
 
 
+COO_IDTYPES = ['uint8', 'uint16', 'int32']
+
+
 def _run_coo(spec, tier, res):
     'COO inputs: every (rowidx, colidx) list of length<=3 over a 2x2 / 2x3 grid; sorted unique ones are valid, everything else must be rejected'
     from nutils import matrix
@@ -446,6 +449,10 @@ def _run_coo(spec, tier, res):
                 values = numpy.array(FVALS[:n])
                 w = {'coo': True, 'backend': backend, 'rows': rows, 'cols': cols, 'nrows': nrows, 'ncols': ncols}
                 (todo_valid if valid else todo_invalid).append(w)
+                # index dtype dimension (assemble_csr admits dtype kinds 'i' and 'u'): every input without negative entries once more with unsigned and 32-bit indices
+                if n and min(rows) >= 0 and min(cols) >= 0:
+                    for idt in COO_IDTYPES:
+                        (todo_valid if valid else todo_invalid).append(dict(w, idtype=idt))
     outs = [replay_coo(w) for w in todo_valid]
     outs += _isolated(todo_invalid, replay_coo) if backend != 'numpy' else [replay_coo(w) for w in todo_invalid]
     for w, obs in zip(todo_valid + todo_invalid, outs):
@@ -478,13 +485,13 @@ def replay_coo(w):
     values = numpy.array(FVALS[:n])
     try:
         with matrix.backend(w['backend']):
-            M = matrix.assemble_coo(values, numpy.array(rows, dtype=int), nrows, numpy.array(cols, dtype=int), ncols)
+            M = matrix.assemble_coo(values, numpy.array(rows, dtype=w.get('idtype', int)), nrows, numpy.array(cols, dtype=w.get('idtype', int)), ncols)
     except Exception as e:
         if valid:
             return 'valid-coo-rejected {!r}'.format(e)
         return None
     if not valid:
-        return 'accepted-invalid-coo rows={} cols={} shape=({},{}) -> {}'.format(rows, cols, nrows, ncols, numpy.asarray(M.export('dense')).tolist())
+        return 'accepted-invalid-coo rows={} cols={} index dtype {} shape=({},{}) -> matrix of shape {}'.format(rows, cols, w.get('idtype', 'int64'), nrows, ncols, M.shape)
     D = numpy.zeros((nrows, ncols))
     for (i, j), v in zip(entries, values):
         D[i, j] = v
